@@ -204,7 +204,7 @@ def nondet(ctx, R):
             self.R = R
 
         def bad(self, rule, key, where="", detail="", nontrivial=True):
-            if key.endswith("|datetime.date.today") and "parse_items" in key:
+            if key.endswith("|datetime.date.today") and key.startswith("timeline."):
                 self.R.ok(rule, key, where, "wall-clock read recorded as known finding K2 under C18", nontrivial=False)
             else:
                 self.R.bad(rule, key, where, detail, nontrivial)
